@@ -46,12 +46,12 @@ theorem run_of_greedy (i : Inst) (as : List Nat) :
     · subst h0
       have hcur : s.cur ≠ 0 := fun h => hst h (by simp)
       have hm : env.mask i s 0 = true := by simp [env, mask, hcur]
-      have hdel : delivered i s 0 = 0 := by simp only [delivered, hi.e.rem0]; omega
+      have hdel : delivered i s 0 = 0 := by simp only [delivered_eq, hi.e.rem0]; omega
       have hrem : ∀ j, 1 ≤ j → (env.step i s 0).rem j = s.rem j := by
         intro j hj
         have : j ≠ 0 := by omega
         simp [env, step, this]
-      have hused : (env.step i s 0).used = 0 := by simp [env, step]
+      have hused : (env.step i s 0).used = 0 := by simp [step_used]
       have hp' : allPositive (as.zip (greedy i (env.step i s 0).rem (env.step i s 0).used as)) = true := by
         rw [hused, greedy_congr i as _ s.rem 0 hrem]
         simp only [greedy, if_true, List.zip_cons_cons, allPositive, List.all_cons, Bool.and_eq_true] at hp
@@ -78,9 +78,9 @@ theorem run_of_greedy (i : Inst) (as : List Nat) :
           Bool.not_eq_true', Bool.or_eq_false_iff, decide_eq_false_iff_not]
         constructor <;> omega
       have hused : (env.step i s a).used = s.used + min (s.rem a) (i.cap - s.used) := by
-        simp [env, step, h0, delivered]
+        simp [step_used, h0, delivered_eq]
       have hrem : (env.step i s a).rem = upd s.rem a (s.rem a - min (s.rem a) (i.cap - s.used)) := by
-        simp [env, step, delivered]
+        simp [env, step, delivered_eq]
       have hp' : allPositive (as.zip (greedy i (env.step i s a).rem (env.step i s a).used as)) = true := by
         rw [hused, hrem]; exact hp2
       obtain ⟨s', hrun⟩ := ih (env.step i s a) hi' (fun b hb => hr b (by simp [hb])) hp'
